@@ -5,6 +5,9 @@
 #![allow(dead_code)]
 use super::adjacent_node::AdjacentNode;
 use super::Graph;
+use super::{IntMap as IntMapT, IntSet as IntSetT};
+pub(crate) type HashMapT<K, V> = super::HashMap<K, V>;
+pub(crate) type HashSetT<T> = super::HashSet<T>;
 use crate::vk::{same_weight, Nm};
 use crate::{Edge, EdgeDedupeStrategy, GraphSpecs, MissingNodeStrategy, Node, SelfLoopsFalseStrategy};
 use std::sync::Arc;
@@ -605,4 +608,217 @@ pub(crate) fn node(x: u8, attr: Option<u8>) -> Arc<Node<Nm, u8>> {
 
 pub(crate) fn edge(u: u8, v: u8, w: f64) -> Arc<Edge<Nm, u8>> {
     Edge::with_weight(Nm(u), Nm(v), w)
+}
+
+// ------------------------------------------------------------------------------------------
+// Direct construction of a pre-state (DESIGN.md 3.2 "Layer 0"): fills every index of a Graph from
+// a node list and an edge list *without* running the policy ladder, so that the state is a
+// compile-time-constant shape for the engine (add_edge's `Result<&Edge, Error>::is_ok()` cannot
+// be constant-folded by CBMC, which makes every state produced by add_edge "symbolic-shaped").
+// `build_direct` is validated against real add_node/add_edge histories (a) natively on a few
+// hundred concrete histories and (b) by the solver in the `c02_build_*` harnesses (field-by-field
+// agreement through rep_inv + alpha), so an error here shows up as a failing check, not as a
+// silently wrong pre-state. Precondition: the edge list is admissible for the specs (no self-loop
+// unless specs.self_loops, no parallel pair unless specs.multi_edges, endpoints are nodes).
+pub(crate) fn build_direct(specs: GraphSpecs, nodes: &[(u8, Option<u8>)], edges: &[(u8, u8, f64)]) -> G {
+    let directed = specs.directed;
+    let mut g: G = Graph::new(specs);
+    let mut i = 0;
+    while i < nodes.len() {
+        let (x, a) = nodes[i];
+        let arc = node(x, a);
+        g.nodes_map.insert(Nm(x), i);
+        g.nodes_map_rev.insert(i, arc.clone());
+        g.nodes_vec.push(arc);
+        g.successors_map.insert(i, IntSetT::default());
+        g.predecessors_map.insert(i, IntSetT::default());
+        g.successors_vec.push(Vec::new());
+        g.predecessors_vec.push(Vec::new());
+        i += 1;
+    }
+    let mut k = 0;
+    while k < edges.len() {
+        let (u, v, w) = edges[k];
+        let iu = *g.nodes_map.get(&Nm(u)).unwrap();
+        let iv = *g.nodes_map.get(&Nm(v)).unwrap();
+        let (ou, ov) = if !directed && u > v { (v, u) } else { (u, v) };
+        let (pu, pv) = if !directed && iu > iv { (iv, iu) } else { (iu, iv) };
+        let e: Arc<Edge<Nm, u8>> = Arc::new(Edge {
+            u: Nm(ou),
+            v: Nm(ov),
+            attributes: None,
+            weight: w,
+        });
+        let exists = g.edges.contains_key(&(Nm(ou), Nm(ov)));
+        g.successors.entry(Nm(u)).or_default().insert(Nm(v));
+        g.successors_map.entry(iu).or_default().insert(iv);
+        adj_put(&mut g.successors_vec, pu, pv, w, exists);
+        if directed {
+            g.predecessors.entry(Nm(v)).or_default().insert(Nm(u));
+            g.predecessors_map.entry(iv).or_default().insert(iu);
+            adj_put(&mut g.predecessors_vec, pv, pu, w, exists);
+        } else {
+            g.successors.entry(Nm(v)).or_default().insert(Nm(u));
+            g.successors_map.entry(iv).or_default().insert(iu);
+            adj_put(&mut g.successors_vec, pv, pu, w, exists);
+        }
+        g.edges.entry((Nm(ou), Nm(ov))).or_default().push(e.clone());
+        let inner: &mut IntMapT<usize, Vec<Arc<Edge<Nm, u8>>>> = g.edges_map.entry(pu).or_default();
+        inner.entry(pv).or_default().push(e);
+        k += 1;
+    }
+    g
+}
+
+fn adj_put(adj: &mut Vec<Vec<AdjacentNode>>, a: usize, b: usize, w: f64, exists: bool) {
+    if exists {
+        let row = &mut adj[a];
+        let mut k = 0;
+        while k < row.len() {
+            if row[k].node_index == b && w < row[k].weight {
+                row[k].weight = w;
+            }
+            k += 1;
+        }
+    } else {
+        adj[a].push(AdjacentNode::new(b, w));
+    }
+}
+
+// ------------------------------------------------------------------------------------------
+// Shape catalogue shared by the reader harnesses (C02, C04-C06, C08-C12, C15).
+
+pub(crate) struct Shape {
+    pub nodes: Vec<(u8, Option<u8>)>,
+    pub edges: Vec<(u8, u8, f64)>,
+}
+
+/// Shape catalogue. `None` when the shape is not admissible for the kind.
+pub(crate) fn shape(directed: bool, multi: bool, s: u8) -> Option<Shape> {
+    shape_w(directed, multi, s, false)
+}
+
+/// `small`: weights are integers 1..=8 (exact sums) instead of arbitrary f64 (incl. NaN).
+pub(crate) fn shape_w(directed: bool, multi: bool, s: u8, small: bool) -> Option<Shape> {
+    let a = if crate::vk::any_bool() { Some(crate::vk::any_u8()) } else { None };
+    let nodes = vec![(2, a), (0, None), (1, None)];
+    let (w1, w2, w3) = if small {
+        (crate::vk::any_small_weight(), crate::vk::any_small_weight(), crate::vk::any_small_weight())
+    } else {
+        (crate::vk::any_f64(), crate::vk::any_f64(), crate::vk::any_f64())
+    };
+    let edges = match s {
+        0 => vec![(2, 0, w1), (0, 1, w2)],
+        1 => vec![(1, 0, w1), (2, 2, w2)],
+        2 => {
+            if !multi {
+                return None;
+            }
+            vec![(2, 0, w1), (0, 2, w2), (2, 0, w3)]
+        }
+        3 => {
+            if !directed && !multi {
+                return None;
+            }
+            vec![(2, 0, w1), (0, 2, w2)]
+        }
+        4 => vec![],
+        _ => vec![(1, 2, w1), (0, 1, w2), (2, 0, w3)],
+    };
+    Some(Shape { nodes, edges })
+}
+
+pub(crate) fn specs_of(directed: bool, multi: bool) -> GraphSpecs {
+    permissive(directed, multi)
+}
+
+pub(crate) fn present(x: u8) -> bool {
+    x <= 2
+}
+
+pub(crate) fn adjacent(sh: &Shape, x: u8, y: u8, mode: u8) -> bool {
+    // mode 0: y is a successor of x (x -> y); 1: predecessor (y -> x); 2: either
+    let mut k = 0;
+    let mut f = false;
+    while k < sh.edges.len() {
+        let (a, b, _) = sh.edges[k];
+        let s = a == x && b == y;
+        let p = a == y && b == x;
+        if (mode == 0 && s) || (mode == 1 && p) || (mode == 2 && (s || p)) {
+            f = true;
+        }
+        k += 1;
+    }
+    f
+}
+
+
+/// Potential-edge catalogue on the nodes [2,0,1] (positions 0,1,2) for the topology-symbolic
+/// harnesses: bit k of `mask` selects slot k. Directed: the six ordered pairs, then a self-loop
+/// on 1; undirected: the three unordered pairs, then a self-loop on 1.
+pub(crate) fn topo_edges(directed: bool, mask: u8, small_weights: bool) -> Vec<(u8, u8, f64)> {
+    let slots: &[(u8, u8)] = if directed {
+        &[(2, 0), (0, 1), (1, 2), (0, 2), (1, 0), (2, 1), (1, 1)]
+    } else {
+        &[(2, 0), (0, 1), (1, 2), (1, 1)]
+    };
+    let mut out = Vec::with_capacity(8);
+    let mut k = 0;
+    while k < slots.len() {
+        if (mask >> k) & 1 == 1 {
+            let w = if small_weights { crate::vk::any_small_weight() } else { 1.0 };
+            out.push((slots[k].0, slots[k].1, w));
+        }
+        k += 1;
+    }
+    out
+}
+
+pub(crate) fn topo_nodes() -> Vec<(u8, Option<u8>)> {
+    vec![(2, None), (0, None), (1, None)]
+}
+
+/// adjacency over an explicit edge list
+pub(crate) fn adj_in(edges: &Vec<(u8, u8, f64)>, x: u8, y: u8, directed: bool) -> bool {
+    let mut k = 0;
+    let mut f = false;
+    while k < edges.len() {
+        let (a, b, _) = edges[k];
+        if (a == x && b == y) || (!directed && a == y && b == x) {
+            f = true;
+        }
+        k += 1;
+    }
+    f
+}
+
+/// reach[i][j] over the names [2,0,1]: reflexive-transitive closure (Floyd-Warshall, 3 nodes).
+pub(crate) fn closure3(edges: &Vec<(u8, u8, f64)>, directed: bool) -> [[bool; 3]; 3] {
+    let names = [2u8, 0, 1];
+    let mut r = [[false; 3]; 3];
+    let mut i = 0;
+    while i < 3 {
+        let mut j = 0;
+        while j < 3 {
+            r[i][j] = i == j || adj_in(edges, names[i], names[j], directed);
+            j += 1;
+        }
+        i += 1;
+    }
+    let mut k = 0;
+    while k < 3 {
+        let mut i = 0;
+        while i < 3 {
+            let mut j = 0;
+            while j < 3 {
+                if r[i][k] && r[k][j] {
+                    r[i][j] = true;
+                }
+                j += 1;
+            }
+            i += 1;
+        }
+        k += 1;
+    }
+    r
 }
